@@ -223,6 +223,9 @@ type c09Conn struct {
 	stalledW func() int
 	// a request whose body is far larger than the socket buffers (real stream sockets)
 	bigPost func(ctx context.Context) error
+	// one housekeeping call with the given (virtual) time: Conn.CheckExpirations, or the function the
+	// connection registered with its periodic runner (datagram transports only)
+	tick func(now time.Time)
 }
 
 type c09Cfg struct {
@@ -435,6 +438,7 @@ func c09WrapUDP(tr int, cc *udpClient.Conn) *c09Conn {
 	c.addOn = func(f func()) { cc.AddOnClose(f) }
 	c.done = cc.Done
 	c.ctxDone = func() <-chan struct{} { return cc.Context().Done() }
+	c.tick = cc.CheckExpirations
 	return c
 }
 
@@ -611,9 +615,10 @@ func newC09Conn(tr int, cfg c09Cfg) (*c09Conn, error) {
 				mu.Unlock()
 			}
 		}()
+		var runner atomic.Value // the function the connection hands to its periodic runner; called by the tick family only
 		dopts := []udp.Option{
 			options.WithErrors(func(error) {}),
-			options.WithPeriodicRunner(func(func(now time.Time) bool) {}),
+			options.WithPeriodicRunner(func(f func(now time.Time) bool) { runner.Store(f) }),
 			options.WithTransmission(cfg.nstart, 1000*time.Hour, 4),
 			options.WithLimitClientParallelRequest(cfg.limitTotal),
 			options.WithLimitClientEndpointParallelRequest(cfg.limitEndpoint),
@@ -640,6 +645,9 @@ func newC09Conn(tr int, cfg c09Cfg) (*c09Conn, error) {
 			cc = udp.Client(ownSock, dopts...)
 		}
 		c := c09WrapUDP(3, cc)
+		if f, ok := runner.Load().(func(now time.Time) bool); ok {
+			c.tick = func(now time.Time) { f(now) }
+		}
 		c.sent = func() [][]byte {
 			mu.Lock()
 			defer mu.Unlock()
@@ -1502,7 +1510,7 @@ func coqZList(v []int64) string {
 func runC09(a runArgs) error {
 	e := NewEmitter("C09", "Liveness.Run")
 	e.ShardSize = 400
-	e.Rule = "watchdog runs of the real client/server code: (transport: in-memory udp, tcp + real tcp/client.Session over a scripted net.Conn, udp + real dtls/server.Session over a scripted net.Conn, udp.Dial over loopback) x operation (request, observe, observation cancel, ping, confirmable / non-confirmable one-way write) x interruption point (before the call, on the wire, after an empty ACK, mid block-wise, queued behind the endpoint limit / total limit / NSTART) x peer behaviour (silence, garbage, unrelated well-formed messages) x trigger (cancel, deadline, local Close, peer close, none = proper answer as control); discovery on a started / not yet started server; 2-8 concurrent Close calls with 0-3 operations in flight and 1-4 on-close callbacks on the three real session types; 2-8 concurrent Server.Stop calls with server-initiated operations in flight (udp and tcp server); an operation whose write is stalled in the socket because the peer stopped reading (tcp and dtls session over a scripted conn whose Write blocks until it is closed; real loopback tcp with a body beyond the socket buffers) x (1-8 concurrent Close, peer closes, context cancelled / expired); the reader loop ended by the peer (input that does not decode, oversized message, peer closes) with 0-3 operations in flight and nobody calling Close, socket owned by the session or by the caller (tcp, dtls, udp.Dial / udp.Client over an own socket). Distinct = distinct scenario; non-trivial = the operation is blocked in a wait when the trigger fires (every scenario except the non-confirmable write), or a close/stop run with at least one callback."
+	e.Rule = "watchdog runs of the real client/server code: (transport: in-memory udp, tcp + real tcp/client.Session over a scripted net.Conn, udp + real dtls/server.Session over a scripted net.Conn, udp.Dial over loopback) x operation (request, observe, observation cancel, ping, confirmable / non-confirmable one-way write) x interruption point (before the call, on the wire, after an empty ACK, mid block-wise, queued behind the endpoint limit / total limit / NSTART) x peer behaviour (silence, garbage, unrelated well-formed messages) x trigger (cancel, deadline, local Close, peer close, none = proper answer as control); discovery on a started / not yet started server; 2-8 concurrent Close calls with 0-3 operations in flight and 1-4 on-close callbacks on the three real session types; 2-8 concurrent Server.Stop calls with server-initiated operations in flight (udp and tcp server); an operation whose write is stalled in the socket because the peer stopped reading (tcp and dtls session over a scripted conn whose Write blocks until it is closed; real loopback tcp with a body beyond the socket buffers) x (1-8 concurrent Close, peer closes, context cancelled / expired); the reader loop ended by the peer (input that does not decode, oversized message, peer closes) with 0-3 operations in flight and nobody calling Close, socket owned by the session or by the caller (tcp, dtls, udp.Dial / udp.Client over an own socket); 1-3 concurrent Server.Stop calls of a datagram server with 1-8 peers racing with the exit path of Serve for the peer table (a Stop call takes the table while the Serve goroutine is kept inside OnNewConn of a late peer and Serve returns while that call still works through the table; or Stop while Serve reads); the housekeeping (Conn.CheckExpirations driven with a virtual time, directly or through the function registered with the periodic runner) retransmitting / giving up the pending confirmable request, observe, observation cancel, ping or one-way write (retransmissions used up, deadline of the request's context passed, two housekeeping goroutines at once) before the call's context is cancelled / expires / the connection is closed, plus a call made afterwards. Distinct = distinct scenario; non-trivial = the operation is blocked in a wait when the trigger fires (every scenario except the non-confirmable write), or a close/stop run with at least one callback."
 	if os.Getenv("HX_CONFIRM") != "" {
 		c09Watchdog = 10 * time.Second
 	}
@@ -1583,6 +1591,32 @@ func runC09(a runArgs) error {
 			coqBool(o.done), coqBool(o.ctx), coqBool(o.ops), coqBool(o.late)), k.desc(), true,
 			"rend", fmt.Sprintf("rend-tr%d", k.tr), fmt.Sprintf("rend-sock-%s", coqBool(k.sock)), fmt.Sprintf("rend-cause%d", k.cause))
 	}
+	doSrace := func(k c09SraceCase, o c09SraceObs) {
+		e.Add(fmt.Sprintf("StopRace %d %d %d %d %d %s %s %s %s %s", k.who, k.nstop, k.npeers, k.ncb, o.nconn, coqZList(o.cb),
+			coqBool(o.done), coqBool(o.closers), coqBool(o.panic_), coqBool(o.serve)), k.desc(), true,
+			"srace", fmt.Sprintf("srace-who%d", k.who), fmt.Sprintf("srace-nstop%d", k.nstop), fmt.Sprintf("srace-npeers%d", k.npeers))
+	}
+	doTick := func(k c09TickCase, o c09TickObs) {
+		e.Add(fmt.Sprintf("Tick %d %d %d %d %s %s %d %s", k.tr, k.op, k.mode, k.trig, coqBool(o.tick), coqBool(o.ret), o.err, coqBool(o.late)),
+			k.desc(), true,
+			"tick", fmt.Sprintf("tick-tr%d", k.tr), fmt.Sprintf("tick-op%d", k.op), fmt.Sprintf("tick-mode%d", k.mode), fmt.Sprintf("tick-trig%d", k.trig))
+	}
+	runSrace := func(k c09SraceCase) (o c09SraceObs, err error) {
+		for attempt := 0; attempt < 3; attempt++ { // a failed SETUP (not an observation) is retried
+			if o, err = runC09Srace(k); err == nil {
+				break
+			}
+		}
+		return o, err
+	}
+	runTick := func(k c09TickCase) (o c09TickObs, err error) {
+		for attempt := 0; attempt < 3; attempt++ {
+			if o, err = runC09Tick(k); err == nil {
+				break
+			}
+		}
+		return o, err
+	}
 	runStall := func(k c09StallCase) (o c09StallObs, err error) {
 		for attempt := 0; attempt < 3; attempt++ { // a failed SETUP (not an observation) is retried
 			if o, err = runC09Stall(k); err == nil {
@@ -1625,6 +1659,20 @@ func runC09(a runArgs) error {
 				setupErrs = append(setupErrs, k.desc()+": "+err.Error())
 			} else {
 				doRend(k, o)
+			}
+		case f[0] == "srace" && len(f) == 5:
+			k := c09SraceCase{atoi(f[1]), atoi(f[2]), atoi(f[3]), atoi(f[4])}
+			if o, err := runSrace(k); err != nil {
+				setupErrs = append(setupErrs, k.desc()+": "+err.Error())
+			} else {
+				doSrace(k, o)
+			}
+		case f[0] == "tick" && len(f) == 5:
+			k := c09TickCase{atoi(f[1]), atoi(f[2]), atoi(f[3]), atoi(f[4])}
+			if o, err := runTick(k); err != nil {
+				setupErrs = append(setupErrs, k.desc()+": "+err.Error())
+			} else {
+				doTick(k, o)
 			}
 		default:
 			return fmt.Errorf("bad descriptor %q", a.only)
@@ -1833,6 +1881,84 @@ func runC09(a runArgs) error {
 				continue
 			}
 			doRend(k, rendOut[i])
+		}
+	}
+	// ---------- Stop against the exit path of Serve; housekeeping on the table of pending message IDs ----------
+	{
+		var sraces []c09SraceCase
+		sreps := 1
+		if thorough {
+			sreps = 6
+		}
+		for rep := 0; rep < sreps; rep++ {
+			for _, who := range []int{0, 1} {
+				for _, nstop := range []int{1, 2, 3} {
+					if !thorough && who == 1 && nstop == 3 {
+						continue
+					}
+					sraces = append(sraces, c09SraceCase{who, nstop, 2 + rng.Intn(7), 1 + rng.Intn(3)})
+				}
+			}
+			sraces = append(sraces, c09SraceCase{0, 1, 1, 1 + rng.Intn(2)}) // a single peer besides the late one
+		}
+		var ticks []c09TickCase
+		for _, tr := range []int{0, 2, 3} {
+			for _, op := range []int{0, 1, 2, 3, 4} {
+				for mode := 0; mode <= 3; mode++ {
+					for _, trig := range []int{0, 1, 2, 4} {
+						k := c09TickCase{tr, op, mode, trig}
+						if !c09TickApplicable(k) {
+							continue
+						}
+						if !thorough && tr != 0 && (op == 1 || op == 2 || op == 4) {
+							continue
+						}
+						ticks = append(ticks, k)
+					}
+				}
+			}
+		}
+		if thorough {
+			ticks = append(append([]c09TickCase(nil), ticks...), ticks...)
+		}
+		sraceOut := make([]c09SraceObs, len(sraces))
+		sraceErr := make([]error, len(sraces))
+		tickOut := make([]c09TickObs, len(ticks))
+		tickErr := make([]error, len(ticks))
+		var wg sync.WaitGroup
+		sem3 := make(chan struct{}, 8)
+		for i := range sraces {
+			wg.Add(1)
+			sem3 <- struct{}{}
+			go func(i int) {
+				defer wg.Done()
+				defer func() { <-sem3 }()
+				sraceOut[i], sraceErr[i] = runSrace(sraces[i])
+			}(i)
+		}
+		for i := range ticks {
+			wg.Add(1)
+			sem3 <- struct{}{}
+			go func(i int) {
+				defer wg.Done()
+				defer func() { <-sem3 }()
+				tickOut[i], tickErr[i] = runTick(ticks[i])
+			}(i)
+		}
+		wg.Wait()
+		for i, k := range sraces {
+			if sraceErr[i] != nil {
+				setupErrs = append(setupErrs, k.desc()+": "+sraceErr[i].Error())
+				continue
+			}
+			doSrace(k, sraceOut[i])
+		}
+		for i, k := range ticks {
+			if tickErr[i] != nil {
+				setupErrs = append(setupErrs, k.desc()+": "+tickErr[i].Error())
+				continue
+			}
+			doTick(k, tickOut[i])
 		}
 	}
 	// real loopback tcp, peer never reads: sequential (the witness is a stack snapshot of the whole process)
